@@ -210,9 +210,31 @@ def c10_history_cases(ctx):
 
 # ------------------------------------------------------------------------------------------------------ chess: C01 C02 C05
 
+def ep_special(ctx, n):
+    """corpus/ep_special.txt: positions whose pseudo-legal e.p. capture is illegal because it clears two pawns off one line
+    (validated by the rules Spec when built, tools/build_ep_corpus.py); stalemates first — they decide fast paths of legality tests"""
+    ents = [l.split(' ') for l in corpus('ep_special.txt')]
+    st = [e[0] for e in ents if e[1] == 'stalemate']
+    other = [e[0] for e in ents if e[1] != 'stalemate']
+    return ctx.rng.sample(st, min(len(st), n)) + ctx.rng.sample(other, min(len(other), n // 2))
+
+
+def big_fullmove(ctx, pos, n):
+    """full-move numbers up to the u32 limit of the well-formedness predicate (2^31 - 1): 16-bit and 15-bit boundaries included"""
+    out = []
+    for p in pos[:n]:
+        f = p.split('_')
+        f[5] = str(ctx.rng.pick([32766, 32767, 32768, 32769, 40000, 65535, 65536, 65537, 1000000, 2 ** 31 - 300]))
+        f[4] = str(min(int(f[4]), 3000))
+        out.append('_'.join(f))
+    return out
+
+
 def c01_cases(ctx):
     pos = positions(ctx, ctx.scale(2500, 40000))
-    cases = all_cases(ctx, pos, 'legal', 'legal-moves')
+    eps = ep_special(ctx, ctx.scale(120, 800))
+    cases = all_cases(ctx, pos, 'legal', 'legal-moves') + all_cases(ctx, eps, 'legal', 'illegal-en-passant-corpus')
+    cases += [Case('pseudo %s' % p, 'illegal-en-passant-corpus', spec='spec:legal %s' % p) for p in eps]
     # the search/perft path: pseudo-legal + make/is_valid/unmake must give the same legal set
     cases += [Case('pseudo %s' % p, 'pseudo+filter', spec='spec:legal %s' % p) for p in pos]
     cases += all_cases(ctx, pos, 'nq', 'capture-promotion-generator')
@@ -231,7 +253,7 @@ def c01_cases(ctx):
 
 def c02_cases(ctx):
     pos = positions(ctx, ctx.scale(2500, 40000))
-    return all_cases(ctx, pos, 'succ', 'successor')
+    return all_cases(ctx, pos, 'succ', 'successor') + all_cases(ctx, big_fullmove(ctx, pos, ctx.scale(150, 2000)), 'succ', 'successor-big-move-number')
 
 
 
@@ -322,6 +344,13 @@ def eval_terminal_oracle(kind, fen_tok):
 def c05_cases(ctx):
     pos = positions(ctx, ctx.scale(2500, 40000))
     cases = all_cases(ctx, pos, 'incheck', 'in-check') + all_cases(ctx, pos, 'terminal', 'mate-stalemate')
+    # the evaluator's and the SAN writer's path to "no legal move": is_any_move_legal on the pseudo-legal buffer
+    cases += all_cases(ctx, pos, 'anylegal', 'any-move-legal')
+    eps = ep_special(ctx, ctx.scale(150, 800))
+    cases += all_cases(ctx, eps, 'anylegal', 'illegal-en-passant-corpus') + all_cases(ctx, eps, 'terminal', 'illegal-en-passant-corpus')
+    # SAN suffixes decide mate vs stalemate too ('#' only for checkmate): few-piece positions, where stalemating moves abound
+    few = [p for p in pos if sum(1 for ch in p.split('_')[0] if ch.isalpha()) <= 5][:ctx.scale(400, 5000)] + wf_corpus('stalemating_fens.txt')
+    cases += [Case('san %s' % p, 'san-suffix-mate-vs-stalemate', spec='spec:san %s' % p) for p in few]
     geo = geometry_positions(ctx)
     ok = core.run_model(['wf %s' % p for p in geo])
     geo = [p for p, a in zip(geo, ok) if a == '1']
@@ -343,6 +372,7 @@ def same_oracle(a):
 def c03_cases(ctx):
     pos = positions(ctx, ctx.scale(2500, 40000))
     cases = [Case('mkunmk %s' % p, 'make-unmake-all-pseudo-legal', oracle=same_oracle) for p in pos]
+    cases += [Case('mkunmk %s' % p, 'make-unmake-big-move-number', oracle=same_oracle) for p in big_fullmove(ctx, pos, ctx.scale(150, 2000))]
     for g in games(ctx, ctx.scale(300, 5000), 120):
         if len(g) > 1:
             cases.append(Case('line %s' % ' '.join(g), 'line-make-all-unmake-all', oracle=same_oracle))
@@ -1087,8 +1117,8 @@ PROPS = {
                 assumptions=['rustc evaluates the const tables as dumped by the same binary at run time']),
     'C05': dict(modules=['Inkayaku.Props.C05', 'Inkayaku.Props.Closure'], theorems=['Inkayaku.Closure.no_moves_iff_rules', 'Inkayaku.C05.square_attacked', 'Inkayaku.C05.in_check', 'Inkayaku.C05.current_in_check', 'Inkayaku.C05.valid', 'Inkayaku.C05.move_legal', 'Inkayaku.C05.wf_not_in_check', 'Inkayaku.C05.occupancy_in_check', 'Inkayaku.C05.no_moves_iff'], cases=c05_cases, anchors=BOARD_ANCHORS),
     'C06': dict(modules=['Inkayaku.Props.C06', 'Inkayaku.Props.C06Gen'], theorems=['Inkayaku.C06Gen.hash_incremental_generated', 'Inkayaku.C06Gen.ep_key_by_file', 'Inkayaku.C06Gen.pawnHash_incremental_generated', 'Inkayaku.C06.hash_incremental', 'Inkayaku.C06.pawnHash_incremental', 'Inkayaku.C06.hash_congr', 'Inkayaku.C06.hash_vis', 'Inkayaku.C06.hash_clocks', 'Inkayaku.C06.keys_good', 'Inkayaku.C06.hash_side', 'Inkayaku.C06.hash_toggles_right', 'Inkayaku.C06.hash_ep_file', 'Inkayaku.C06.hash_moves_piece', 'Inkayaku.C06.hash_changes_kind'], cases=c06_cases, post=c06_post, anchors=BOARD_ANCHORS),
-    'C10': dict(modules=['Inkayaku.Props.C10', 'Inkayaku.Props.C10Fifty'],
-                theorems=['Inkayaku.C10.countRepetitions_value', 'Inkayaku.C10.countRepetitions_spec',
+    'C10': dict(modules=['Inkayaku.Props.C10', 'Inkayaku.Props.C10Fifty', 'Inkayaku.Props.C10Search', 'Inkayaku.Props.C10Rep'],
+                theorems=['Inkayaku.C10Rep.' + n for n in 'repSearch_eq_mm repSearch_order_irrelevant rule_never_at_root rule_applies_iff rule_value rule_otherwise occurrences_agree isRepetition_iff_occurrences go_depth1_eq_repSpec go_depth1_searchmoves_eq_repSpec'.split()] + ['Inkayaku.C10Search.' + n for n in 'history_of_setPosition node_repetition_iff node_repetition search_never_writes_below node_hyp_inherited root_child_repetition_iff go_threefold go_no_threefold go_depth1_game repValue_const irreversible_move_closes_window window_is_reversible_suffix'.split()] + ['Inkayaku.C10.countRepetitions_value', 'Inkayaku.C10.countRepetitions_spec',
                           'Inkayaku.C10.never_reads_above_start', 'Inkayaku.C10.threefold_iff',
                           'Inkayaku.C10.max_half_moves', 'Inkayaku.C10.fifty_only_after_100', 'Inkayaku.C10.fifty_draw_from_100',
                           'Inkayaku.C10.terminal_ignores_clock'],
